@@ -659,9 +659,13 @@ func (d *decoder) parseDataFields(dm *defmsg, knownMsg bool, msgv reflect.Value)
 				for j := dsize; j < pfield.t.BaseType().Size(); j++ {
 					d.tmp[j] = 0x00
 				}
-			} else {
-				for j := 0; j < pfield.t.BaseType().Size(); j++ {
-					d.tmp[j], d.tmp[j+padding] = 0x00, d.tmp[j]
+			} else if pfield.t.Kind() != types.NativeFit {
+				// Big endian: right-align the value in the profile sized
+				// slot. Native fields are parsed using the definition's
+				// own base type and size and need no padding.
+				copy(d.tmp[padding:padding+dsize], d.tmp[:dsize])
+				for j := 0; j < padding; j++ {
+					d.tmp[j] = 0x00
 				}
 			}
 		}
